@@ -20,8 +20,66 @@ import (
 	"github.com/bytom/bytom/consensus"
 )
 
+// genCaseFlipVsBlock: a verification message that flips the fork choice to a shorter branch is
+// handled while a block extending that branch is being processed (8 fresh nodes per case).
+//
+//	b0 - b1 - b2 - b3 - b4          best block before the vote
+//	       \ c2 - c3                c2 is a checkpoint (E = 2); c3 arrives together with the vote
+func genCaseFlipVsBlock(c *Ctx) {
+	for attempt := 0; attempt < 8 && !concWedged; attempt++ {
+		nc := newNodeCase(c, "pool", 2, 3, -1, 2)
+		n := nc.sut
+		tip := "b0"
+		var main []string
+		for i := 0; i < 4; i++ {
+			tip = nc.defBlock(tip, 0, 0, nil)
+			main = append(main, tip)
+		}
+		c2 := nc.defBlock(main[0], 1, 1, nil)
+		c3 := nc.defBlock(c2, 0, 0, nil)
+		for _, name := range append(append([]string{}, main...), c2) {
+			n.processBlock(nc.nm.blocks[name])
+			nc.delivered[name] = true
+		}
+		for v := 0; v < 2; v++ {
+			n.chain.ProcessBlockVerification(nc.env.voteMsg(v, nc.nm.blocks["b0"].Hash(), nc.nm.blocks[c2].Hash(), true))
+		}
+		last := nc.env.voteMsg(2, nc.nm.blocks["b0"].Hash(), nc.nm.blocks[c2].Hash(), true)
+		blk := cloneBlock(nc.nm.blocks[c3])
+		done := make(chan string, 2)
+		go func() { n.chain.ProcessBlockVerification(last); done <- "vote" }()
+		go func() {
+			time.Sleep(time.Duration(c.Rng.Intn(200)) * time.Microsecond)
+			n.chain.ProcessBlock(blk)
+			done <- "block"
+		}()
+		for k := 0; k < 2; k++ {
+			select {
+			case <-done:
+			case <-time.After(30 * time.Second):
+				c.Fail("C37:call-does-not-return", "a fork-choice-flipping verification message concurrent with a block on the new branch: a call did not return within 30 s")
+				concWedged = true
+			}
+		}
+		if !concWedged {
+			n.quiesce()
+			if bh, fc := n.chain.BestBlockHeader().Hash(), n.chain.VerifNodeCasper().BestChain(); bh != fc {
+				c.Fail("C37:stale-rollback", fmt.Sprintf("vote flipping the fork choice to %s concurrent with block %s (its child): all calls returned, node idle, best block %s but the fork choice is %s", c2, c3, nc.nm.name(bh), nc.nm.name(fc)))
+			}
+			c.Count("flip-vs-block-attempts")
+		}
+		nc.emit("conc flip-vs-block", "ok")
+		nc.close()
+	}
+	c.Distinct(fmt.Sprintf("flipblock-%d-%d", c.Seed, c.nOps))
+}
+
 func genCaseConc(c *Ctx, mode string) {
 	rng := c.Rng
+	if rng.Intn(3) == 0 {
+		genCaseFlipVsBlock(c)
+		return
+	}
 	// constant parameters: see newNodeEnv (no write to the global parameters between cases)
 	E := uint64(2)
 	nVal := 3
@@ -220,6 +278,12 @@ func genCaseConc(c *Ctx, mode string) {
 		return
 	}
 	n.quiesce()
+	// every call has returned: the best block must be the fork-choice winner NOW (a rollback
+	// request computed before a concurrent block was connected, and applied after it, moves the
+	// chain back to a stale tip and nothing repairs that until the next block arrives)
+	if bh, fc := n.chain.BestBlockHeader().Hash(), n.chain.VerifNodeCasper().BestChain(); bh != fc {
+		c.Fail("C37:stale-rollback", fmt.Sprintf("after the concurrent run (all calls returned, node idle): best block %s but the fork choice is %s", nc.nm.name(bh), nc.nm.name(fc)))
+	}
 	// deliver everything once more sequentially and check the final state's consistency
 	for _, name := range blocks {
 		n.processBlock(nc.nm.blocks[name])
